@@ -14,6 +14,7 @@ Axes are lists of rationals; "strictly increasing" is `List.Pairwise (· < ·)`.
 import GlotaranProofs.Lemmas.C08
 import GlotaranProofs.Lemmas.C08Lists
 import GlotaranProofs.Lemmas.C08Linked
+import GlotaranProofs.Lemmas.C08Gen
 namespace Glotaran.C08
 open Glotaran.LinAlg Glotaran.C02
 
@@ -841,6 +842,201 @@ example :
       some [(4, ["s", "u"], ["s", "u"]), (5, ["s", "u"], ["u"]), (6, ["s", "u"], ["s", "u"])] ∧
     ConstrainedAt mi.constraints 5 "s" ∧ ¬ RelTargetAt mi.relations ["s", "u"] 5 "s" ∧ ¬ ConstrainedAt mi.constraints 5 "u" ∧
     retrieveClps mi ["s", "u"] ["u"] [7] 5 = [0, 7] := by
+  decide +kernel
+
+/-! ### the functions as they are written in the source: translated on every run, equal to the model
+
+`GlotaranModel/Generated/C08Fns.lean` is regenerated from the source text of glotaran on every run of the
+check (harness/props/_c08_fns.py, vocabulary `GlotaranModel/C08Py.lean`).  The theorems below prove each
+generated definition equal to the model definition the driver executes and the theorems above talk about —
+for every item class, every value of the `interval` attribute (none, one tuple, a list of tuples of any
+length), every index, every pair of bounds (reversed, infinite), every non-empty axis (any length, any
+order), every list of intervals and label table.  A behaviour-changing edit of one of these functions
+breaks the corresponding theorem. -/
+
+/-- `IntervalItem.has_interval` through the method dispatch of every item class -/
+theorem generated_has_interval_eq_model (it : Py.Item) :
+    Gen.has_interval it = (ivsModel it.interval).isSome :=
+  gen_has_interval_eq it
+
+example : Gen.has_interval ⟨.ZeroConstraint, some (.many []), "t", "", 0⟩ = true ∧
+    Gen.has_interval ⟨.ClpRelation, none, "t", "s", 2⟩ = false := by decide
+
+/-- `IntervalItem.applies` as written (early return on `None`, the nested `applies`, the
+    list-of-one normalisation, `any`) is the model's `appliesOpt`: closed, order-insensitive, union -/
+theorem generated_interval_item_applies_eq_model (it : Py.Item) (index : Option Rat) :
+    Gen.IntervalItem_applies it index = appliesOpt (ivsModel it.interval) index :=
+  gen_IntervalItem_applies_eq it index
+
+example : Gen.IntervalItem_applies ⟨.ZeroConstraint, some (.single (.fin 3, .fin 1)), "t", "", 0⟩ (some 3) = true ∧
+    Gen.IntervalItem_applies ⟨.ZeroConstraint, some (.many [(.fin 3, .fin 1), (.fin 5, .pinf)]), "t", "", 0⟩ (some 4) = false ∧
+    Gen.IntervalItem_applies ⟨.ZeroConstraint, some (.many [(.fin 3, .fin 1), (.fin 5, .pinf)]), "t", "", 0⟩ (some 400) = true := by
+  decide +kernel
+
+/-- `item.applies(index)` with Python's method resolution over the item classes found in the source:
+    `OnlyConstraint` negates, every other class uses `IntervalItem.applies` -/
+theorem generated_applies_eq_model (it : Py.Item) (index : Option Rat) :
+    Gen.applies it index = itemApplies it.isOnly (ivsModel it.interval) index :=
+  gen_applies_eq it index
+
+example : Gen.applies ⟨.OnlyConstraint, some (.single (.fin 1, .fin 3)), "t", "", 0⟩ (some 2) = false ∧
+    Gen.applies ⟨.ClpRelation, some (.single (.fin 1, .fin 3)), "t", "s", 2⟩ (some 2) = true := by decide +kernel
+
+/-- `MatrixProvider.does_interval_item_apply` (truth value; the warning is observed by the harness) -/
+theorem generated_does_interval_item_apply_eq_model (it : Py.Item) (index : Option Rat) :
+    Gen.does_interval_item_apply it index =
+      (doesIntervalItemApply it.isOnly (ivsModel it.interval) index).1 :=
+  gen_does_eq it index
+
+example : Gen.does_interval_item_apply ⟨.OnlyConstraint, some (.single (.fin 1, .fin 3)), "t", "", 0⟩ none = true ∧
+    Gen.does_interval_item_apply ⟨.OnlyConstraint, some (.single (.fin 1, .fin 3)), "t", "", 0⟩ (some 2) = false := by
+  decide +kernel
+
+/-- **items are re-read on every evaluation.**  An item is its class and the CURRENT values of its
+    attributes — the translated `applies` has no other state to read (an assignment to an attribute of
+    `self`, e.g. a memo of the ordered intervals, is outside the translated subset and breaks this
+    theorem).  After any sequence of assignments `item.interval = v` the answer is the one for the last
+    assigned value, for every class, index and history. -/
+theorem applies_reads_current_interval (it : Py.Item) (hist : List (Option Py.Ivs)) (index : Option Rat) :
+    Gen.applies (hist.foldl (fun (o : Py.Item) v => { o with interval := v }) it) index =
+      itemApplies it.isOnly (ivsModel (hist.getLast?.getD it.interval)) index := by
+  rw [gen_applies_eq]
+  have h : ∀ (l : List (Option Py.Ivs)) (o : Py.Item),
+      (l.foldl (fun (o : Py.Item) v => { o with interval := v }) o).cls = o.cls ∧
+      (l.foldl (fun (o : Py.Item) v => { o with interval := v }) o).interval = l.getLast?.getD o.interval := by
+    intro l
+    induction l with
+    | nil => intro o; simp
+    | cons a t ih =>
+      intro o
+      obtain ⟨h1, h2⟩ := ih { o with interval := a }
+      refine ⟨by simpa using h1, ?_⟩
+      rw [List.foldl_cons, h2]
+      cases t with
+      | nil => simp
+      | cons b t' =>
+        rw [List.getLast?_cons_cons, List.getLast?_eq_some_getLast (List.cons_ne_nil b t')]
+        simp
+  obtain ⟨h1, h2⟩ := h hist it
+  simp only [Py.Item.isOnly, h1, h2]
+
+/-- a zero constraint used on (1, 3), then reassigned to the half-infinite (5, +inf): the second evaluation
+    follows the new interval at every index -/
+example :
+    let it : Py.Item := ⟨.ZeroConstraint, some (.single (.fin 1, .fin 3)), "t", "", 0⟩
+    let it' := [some (Py.Ivs.single (.fin 5, .pinf))].foldl (fun (o : Py.Item) v => { o with interval := v }) it
+    (Gen.applies it (some 2), Gen.applies it (some 7)) = (true, false) ∧
+    (Gen.applies it' (some 2), Gen.applies it' (some 7)) = (false, true) := by decide +kernel
+
+/-- `DataProvider.get_axis_slice_from_interval` with its nested `nearest_index` as written
+    (swap of a reversed pair, `np.isinf`, `0` / `axis.size - 1`, `np.abs(axis - value).argmin()`, `+ 1`)
+    is the model's `axisSlice` on every non-empty axis (numpy's `argmin` raises on an empty one) -/
+theorem generated_slice_eq_model (p : Py.Pair) (axis : List Rat) (hne : axis ≠ []) :
+    Gen.get_axis_slice_from_interval p axis = sliceInt (axisSlice p.1 p.2 axis) :=
+  gen_slice_eq p axis hne
+
+example : Gen.get_axis_slice_from_interval (.pinf, .fin 1) [0, 1, 2, 3, 4] = (1, 5) ∧
+    Gen.get_axis_slice_from_interval (.fin (5/2), .fin (1/2)) [0, 1, 2, 3, 4] = (0, 3) ∧
+    Gen.get_axis_slice_from_interval (.fin 1, .fin 1) [4, 1, 0] = (1, 2) := by decide +kernel
+
+/-- the slice the source computes stays inside the axis: `0 ≤ start < stop ≤ axis.size` — the Python
+    ints never become negative and the indexing of `_get_area` never raises IndexError -/
+theorem generated_slice_in_range (p : Py.Pair) (axis : List Rat) (hne : axis ≠ []) :
+    0 ≤ (Gen.get_axis_slice_from_interval p axis).1 ∧
+    (Gen.get_axis_slice_from_interval p axis).1 < (axis.length : Int) ∧
+    0 < (Gen.get_axis_slice_from_interval p axis).2 ∧
+    (Gen.get_axis_slice_from_interval p axis).2 ≤ (axis.length : Int) := by
+  rw [gen_slice_eq p axis hne, axisSlice_eq]
+  have h1 := nearestIdx_lt hne (emin p.1 p.2)
+  have h2 := nearestIdx_lt hne (emax p.1 p.2)
+  simp only [sliceInt]
+  omega
+
+example : (Gen.get_axis_slice_from_interval (.ninf, .pinf) [7]) = (0, 1) := by decide +kernel
+
+/-- `_get_area` as written (ordering by `min`/`max`, the skip above the last point, the clamping by
+    `np.min`/`np.max`, the slice, the per-index label look-up, `append`) collects exactly what the
+    model's `getArea` collects, for label tables given per index -/
+theorem generated_get_area_eq_model (label : String) (labels : List (List String)) (clps : List (List Rat))
+    (ivs : List Py.Pair) (axis : List Rat) (hne : axis ≠ []) :
+    Gen.get_area label (.nested labels) clps ivs axis = getArea label labels clps (ivs.map pairModel) axis :=
+  gen_get_area_nested label labels clps ivs axis hne
+
+example : Gen.get_area "a" (.nested [["b", "a"], ["b"], ["b", "a"], ["a"]]) [[-1, 10], [-1], [-1, 12], [13]]
+    [(.pinf, .fin 2), (.fin 0, .fin 0)] [1, 2, 3, 4] = [12, 13, 10] := by decide +kernel
+
+/-- the body of the loop of `MatrixProvider.apply_constraints` as written (which constraints apply at
+    the index, `removed_clp_labels`, `reduced_clp_labels`, the boolean mask, the column selection) replaces
+    the matrix of index `i` by the model's `applyConstraintsAt` of it -/
+theorem generated_apply_constraints_eq_model (model : Gen.Model) (ms : List LMat2) (i : Nat) (x : Rat)
+    (hi : i < ms.length) :
+    Gen.apply_constraints_body model ms i x =
+      ms.set i (applyConstraintsAt (model.clp_constraints.map consModel) x (ms.getD i default)) :=
+  gen_apply_constraints_body_eq model ms i x hi
+
+example : (Gen.apply_constraints_body
+    { clp_constraints := [⟨.ZeroConstraint, some (.single (.fin 1, .pinf)), "s", "", 0⟩,
+                          ⟨.OnlyConstraint, some (.single (.fin 0, .fin 5)), "u", "", 0⟩] }
+    [⟨["s", "u"], [[1, 2]]⟩, ⟨["s", "u"], [[3, 4]]⟩] 1 7).map (fun m => (m.labels, m.m)) =
+      [(["s", "u"], [[1, 2]]), ([], [[]])] := by decide +kernel
+
+/-! ### equal-area penalties in an unlinked group with several datasets -/
+
+private theorem mapM_some_spec {α β : Type} (f : α → Option β) : ∀ (l : List α) (out : List β),
+    l.mapM f = some out → out.length = l.length ∧ ∀ i (hi : i < l.length), f l[i] = out[i]? := by
+  intro l
+  induction l with
+  | nil => intro out h; simp at h; subst h; simp
+  | cons a t ih =>
+    intro out h
+    simp only [List.mapM_cons] at h
+    cases ha : f a with
+    | none => simp [ha] at h
+    | some b =>
+      cases ht : t.mapM f with
+      | none => simp [ha, ht] at h
+      | some bs =>
+        simp [ha, ht] at h
+        subst h
+        obtain ⟨h1, h2⟩ := ih bs ht
+        refine ⟨by simp [h1], ?_⟩
+        intro i hi
+        cases i with
+        | zero => simp [ha]
+        | succ j => simpa using h2 j (by simpa using hi)
+
+/-- **every dataset's equal-area penalties appear exactly once.**  For an unlinked group — any number of
+    datasets — the penalty part of the group (`Result.additional_penalty`, the tail of the full penalty
+    vector) is the concatenation, in dataset order, of the penalties each dataset computes on its own global
+    axis (`unlinkedDataset … = (residuals, clpPenalties …)`): one block per dataset, nothing dropped and
+    nothing repeated; the full penalty vector is all residual blocks followed by all penalty blocks, so the
+    cost (its squared norm) counts every dataset's penalty once. -/
+theorem penalties_all_datasets_once (mi : ModelItems) (g : Group) (hl : g.linked = false) (r p : Vec)
+    (h : groupPenaltyParts mi g = some (r, p)) :
+    ∃ parts : List (Vec × Vec), parts.length = g.datasets.length ∧
+      (∀ i (hi : i < g.datasets.length), unlinkedDataset mi g.solver g.datasets[i] = parts[i]?) ∧
+      r = (parts.map (·.1)).flatten ∧ p = (parts.map (·.2)).flatten ∧
+      p.length = (parts.map (·.2.length)).sum ∧
+      groupPenalty mi g = some ((parts.map (·.1)).flatten ++ (parts.map (·.2)).flatten) := by
+  simp only [groupPenaltyParts, hl] at h
+  cases hm : g.datasets.mapM (unlinkedDataset mi g.solver) with
+  | none => simp [hm] at h
+  | some parts =>
+    simp [hm] at h
+    obtain ⟨hr, hp⟩ := h
+    obtain ⟨h1, h2⟩ := mapM_some_spec _ _ _ hm
+    refine ⟨parts, h1, h2, ?_, ?_, ?_, ?_⟩
+    · rw [← hr]; simp [List.flatMap_def]
+    · rw [← hp]; simp [List.flatMap_def]
+    · rw [← hp]; simp [List.flatMap_def, List.length_flatten, List.map_map, Function.comp_def]
+    · simp [groupPenalty, groupPenaltyParts, hl, hm, List.flatMap_def]
+
+/-- the two datasets of `tolGroup`, unlinked, with one equal-area penalty over the whole axis: two penalty
+    entries, one per dataset, after the 10 residual entries -/
+example :
+    let mi : ModelItems := { penalties := [⟨"s", [⟨.ninf, .pinf⟩], "u", [⟨.ninf, .pinf⟩], 1, 1⟩] }
+    (groupPenaltyParts mi { tolGroup with linked := false }).map (fun rp => (rp.1.length, rp.2.length)) = some (10, 2) ∧
+    (groupPenalty mi { tolGroup with linked := false }).map (·.length) = some 12 := by
   decide +kernel
 
 end Glotaran.C08
